@@ -30,8 +30,9 @@ META = dict(
                'line-continuation handling', '_compute_triggers',
                '_set_output_opt / _set_triggers'],
     bounds=['left: and/or trees with <= 3 leaves over a, b:x?, c? (7 shapes); '
-            'right: d | d & e | m => d chain; second line: none | a => e | '
-            'c? => d', '8 renderings per AST'],
+            'right: d | d & e | m => d chain | m & n => d chain; further '
+            'lines: none | a => e | c? => d | e => m + m => x (a mid-chain '
+            'node that also ends another line)', '8-9 renderings per AST'],
     stubs=['none'],
     assumptions=[],
     outside=['malformed-line rejection', 'parameters, xtriggers, suicide '
@@ -42,8 +43,8 @@ LEAVES = ['a', 'b:x?', 'c?']
 LHS = ['{0}', '{0} & {1}', '{0} | {1}', '{0} & {1} & {2}', '{0} | {1} | {2}',
        '{0} & ({1} | {2})', '({0} & {1}) | {2}', '({0} | {1}) & {2}',
        '{0} | {1} & {2}']
-RHS = ['d', 'd & e', 'm => d']
-EXTRA = [None, 'a => e', 'c? => d']
+RHS = ['d', 'd & e', 'm => d', 'm & n => d']
+EXTRA = [None, 'a => e', 'c? => d', 'e => m\nm => x']
 
 
 def cases():
@@ -83,11 +84,11 @@ def renderings(lhs, rhs, extra):
 
 def written(lhs):
     """The Boolean expression as written -> parser atom syntax."""
-    s = lhs
-    for leaf, atom in (('b:x?', 'b:x'), ('c?', 'c:succeeded'),
-                       ('a', 'a:succeeded')):
-        s = s.replace(leaf, atom)
-    return s.replace(' ', '')
+    import re
+    atom = {'b:x?': 'b:x', 'c?': 'c:succeeded', 'a': 'a:succeeded',
+            'e': 'e:succeeded'}
+    return re.sub(r'[a-z][a-z:?]*', lambda m: atom[m.group(0)],
+                  lhs).replace(' ', '')
 
 
 def smt_presentation(slc):
@@ -111,10 +112,11 @@ def smt_presentation(slc):
         first = rhs.split('=>')[0].split('&')[0].strip()
         env = {}
         f_written = to_z3(written(lhs), env)
-        if extra and extra.endswith('=> ' + first):
-            # the second line adds one more prerequisite to the same task
-            f_written = z3.And(f_written, to_z3(
-                written(extra.split('=>')[0].strip()), env))
+        for xl in (extra or '').split('\n'):
+            if xl.endswith('=> ' + first):
+                # the line adds one more prerequisite to the same task
+                f_written = z3.And(f_written, to_z3(
+                    written(xl.split('=>')[0].strip()), env))
         r, _ = ses.check(formula(ctrig[first], env) != f_written,
                          label=f'written {lhs} => {first}')
         n += 1
@@ -160,7 +162,7 @@ def replay(lhs, rhs, extra, name) -> bool:
     if set(canon[0]) != set(got[0]) or canon[1] != got[1]:
         return False
     atoms = ['a:succeeded', 'b:x', 'c:succeeded', 'm:succeeded',
-             'd:succeeded']
+             'd:succeeded', 'n:succeeded', 'e:succeeded']
 
     def ev(exprs, env):
         return all(eval(
